@@ -60,6 +60,7 @@ InitW(cap) ==
     prepAmb |-> FALSE,     \* the records being applied belong to several operations at once: which entry a parent reported is not known
     prepU   |-> {},        \* ... inodes that were watched when such records included a parent's IN_DELETE: reported or not - undetermined
     seenCk  |-> {},        \* cookies whose Rename event has been received
+    lostCr  |-> {},        \* names whose Create was owed and never came (judged lost when the stream settled): nothing else of that incarnation may follow
     fog     |-> FALSE,     \* outcome no longer determined by the statements (see DESIGN): judge only crashes, blocking, leaks
     nontriv |-> {},        \* which non-trivial situations this watcher went through (evidence)
     bad     |-> <<>> ]
@@ -270,7 +271,11 @@ Consume(ws0, v, j) ==
              {q \in 1..Len(w3a.skipped) : /\ w3a.skipped[q].name = x.name /\ HasBit(w3a.skipped[q].op, OpCreate) /\ w3a.skipped[q].seq < x.seq
                                           /\ ~\E k \in 1..(j - 1) : /\ ws.exp[k].name = x.name /\ ws.exp[k].seq > w3a.skipped[q].seq
                                                                     /\ (HasBit(ws.exp[k].op, OpCreate) \/ HasBit(ws.exp[k].op, OpRemove) \/ HasBit(ws.exp[k].op, OpRename))}
-      w3 == IF pcs # {} THEN Bad(w3a, {"C03", "C01"}, "before_its_create:" \o OpName(x.op)) ELSE w3a
+      w3b == IF pcs # {} THEN Bad(w3a, {"C03", "C01"}, "before_its_create:" \o OpName(x.op)) ELSE w3a
+      \* ... also when the Create was given up as lost at an earlier settling of the stream
+      w3 == IF x.name \notin w3b.lostCr THEN w3b
+            ELSE IF HasBit(x.op, OpCreate) \/ pcs # {} THEN [w3b EXCEPT !.lostCr = @ \ {x.name}]
+            ELSE Bad([w3b EXCEPT !.lostCr = @ \ {x.name}], {"C03", "C01"}, "before_its_create:" \o OpName(x.op))
       w4 == CloseLag(w3, x.seq)
   IN IF x.from # <<>> THEN Note(w4, "rename_pair") ELSE w4
 
@@ -352,7 +357,8 @@ Settle(ws) ==
       w2 == IF drop /\ ws.gotOvf = 0 /\ ws.phase = "open" /\ ~ws.fog
             THEN Bad(w1, {"C01", "C10"}, "overflow_not_reported") ELSE w1
       G  == {i \in DOMAIN ws.uw : ws.uw[i].st = "ending"}
-  IN [w2 EXCEPT !.exp = <<>>, !.eh = 0, !.mq = <<>>, !.bag = <<>>, !.skipped = <<>>, !.last = NoRec, !.nq = 0, !.ovf = FALSE,
+      lc == {lost[q].name : q \in {j \in 1..Len(lost) : HasBit(lost[j].op, OpCreate)}}
+  IN [w2 EXCEPT !.lostCr = IF ~ws.fog /\ ws.phase = "open" THEN @ \cup lc ELSE @, !.exp = <<>>, !.eh = 0, !.mq = <<>>, !.bag = <<>>, !.skipped = <<>>, !.last = NoRec, !.nq = 0, !.ovf = FALSE,
                 !.dropped = FALSE, !.gotOvf = 0, !.uw = Without(@, G), !.flags = {}, !.seenCk = {}, !.ovfFion = -1, !.room = 0, !.fromSeqs = <<>>, !.wlValid = FALSE]
 
 ---------------------------------------------------------------------------
